@@ -47,9 +47,9 @@ def _descends(e, depth=0):
 
 
 def run_e1b(prog, rep):
-    # audit of the program as written: no helper inlining / loop desugaring (see facts.Program.raw)
-    with prog.raw():
-        return _run_e1b(prog, rep)
+    # runs on the inlined view: a recursion that passes through a new helper is judged at the anchored caller, where the helper's
+    # parameter is again "a part of my own argument" (absorbed helpers are not judged a second time on their own)
+    return _run_e1b(prog, rep)
 
 
 def _run_e1b(prog, rep):
@@ -60,7 +60,7 @@ def _run_e1b(prog, rep):
         cs = set(comp)
         for caller in sorted(comp):
             f = prog.fns[caller]
-            if f.body is None:
+            if f.body is None or prog.is_absorbed(f):
                 continue
             tr = Tracer(f.body)
             for callee_id in sorted(cg.edges.get(caller, ())):
